@@ -26,6 +26,7 @@ import GraphiqModel.Proofs.MixtureDMPhysMeas
 import GraphiqModel.Proofs.MixtureDMZero
 import GraphiqModel.Proofs.MixtureDMWeights
 import GraphiqModel.Proofs.MixtureDMJoint
+import GraphiqModel.Proofs.MixtureDMPerBranch
 namespace Graphiq.C06
 open Graphiq Graphiq.Noise Graphiq.DM
 
@@ -527,6 +528,18 @@ theorem per_branch_measurement_differs :
            compileStab true 1 0 1 true [{ kind := .x, n0 := .depol (1/3) true }, { kind := .measZ }] with
       | .ok { ρ := some ρ, .. }, .ok s => ρ.e 1 1 == ⟨1, 0⟩ && (mixtureDensity 1 s.mix).e 1 1 == ⟨7/9, 0⟩
       | _, _ => false) = true := by decide +kernel
+
+/-- **what the code's per-branch measurement does to the state, any mixture, every n** (the exact shape of F2): with `R_rand` /
+    `R_det` the parts of `Σ_k w_k ρ(T_k)` carried by the branches whose outcome is random / deterministic,
+    `Σ (measure q o m) = 2·Π_o R_rand Π_o + R_det` — the random branches are post-selected on the forced outcome, the
+    deterministic ones are kept whatever their outcome (a non-selective measurement), whereas the density-matrix backend
+    post-selects everything on one outcome.  The two coincide when the branches agree
+    (`dm_equals_mixture_with_uniform_measurements`). -/
+theorem per_branch_measurement_semantics (n q : Nat) (hq : q < n) (o : Bool) (m : Mixture) (hg : Graphiq.MixDM.MixGood n m) :
+    Graphiq.MixDM.mixRho n (Mix.measure q o m).1
+      = (2 : ℂ) • (Graphiq.MixDM.projZ n q o * Graphiq.MixDM.mixRho n (Graphiq.MixDM.randomPart q m) * Graphiq.MixDM.projZ n q o)
+        + Graphiq.MixDM.mixRho n (Graphiq.MixDM.detPart q m) :=
+  Graphiq.MixDM.per_branch_measure_spec n q hq o m hg
 
 /-! ### a verified repair for F2 (a proposal — *not* a model of the code as it stands) -/
 
